@@ -20,6 +20,12 @@ call form)`) extended with **mutation**:
                     empties **one** table (the one of the top-level state's class) and nothing for link
                     changes; on the repaired tree `clear_all_caches()`.
 
+* re-entrant mutations (round 3) — in glue a data-side mutation is not atomic: it is a *script* of
+                    `clear_all_caches()` calls, state changes and hub broadcasts, and hub listeners evaluate
+                    selections inside their message handlers.  Section "Re-entrant evaluation" below:
+                    `Phase`, `Listeners`, `expand`, the transcribed scripts (`Script.*`, `Mutation`), the
+                    dirty-flag `flow` and `Sound`.
+
 `Spec` is the property: every evaluation returns `Expr.denote` of the selection value the object
 *currently* stands for, in the *current* leaf environment — which is what a freshly constructed,
 never-evaluated deep copy returns with cleared memo tables (theorem `spec_always_fresh`).
@@ -160,6 +166,12 @@ inductive Op where
   | setAttr (a : Var) (k : Kind) (c : Content)
   | editParam (a : Var) (k : Kind) (c : Content)
   | dataMut (m : DataMut) (d : DataId)
+  /-- `clear_all_caches()` on its own: every memo table is emptied, nothing else changes. -/
+  | clearAll
+  /-- A bare data-side state change (arrays re-bound, a component popped, the derivable set replaced …):
+  the leaf environment moves on, **nothing** is invalidated.  The phases of a re-entrant mutation (below)
+  are made of `clearAll`, `change` and the evaluations hub listeners perform when a message is delivered. -/
+  | change
   deriving Repr
 
 namespace Spec
@@ -234,6 +246,8 @@ def step (tbl : ClassTable) (w : World) (s : State) : Op → State × Obs
       | none => (s, .bad)
     | none => (s, .bad)
   | .dataMut _ _ => ({ s with epoch := s.epoch + 1 }, .none)
+  | .clearAll => (s, .none)
+  | .change => ({ s with epoch := s.epoch + 1 }, .none)
 
 def run (tbl : ClassTable) (w : World) : State → List Op → State × List Obs
   | s, [] => (s, [])
@@ -276,6 +290,8 @@ def step (tbl : ClassTable) (pol : Policy) (w : World) (st : State) : Op → Sta
   | .dataMut m _ =>
     ({ s := { st.s with h := invalidate tbl (pol.inval m) st.s.h st.s.cur }, epoch := st.epoch + 1 },
       ⟨.none, none⟩)
+  | .clearAll => ({ st with s := { st.s with h := { st.s.h with memo := [] } } }, ⟨.none, none⟩)
+  | .change => ({ st with epoch := st.epoch + 1 }, ⟨.none, none⟩)
 
 def run (tbl : ClassTable) (pol : Policy) (w : World) : State → List Op → State × List SubsetEval.Impl.Out
   | s, [] => (s, [])
@@ -391,6 +407,8 @@ def mutationUnseen (st : Impl.State) : Op → Bool
       | some (.leaf _ p) => st.s.h.memo.all fun x => !reachesParam st.s.h.g st.s.h.g.fuel x.key.node p
       | _ => true
     | none => true
+  -- a bare state change is harmless only while nothing is memoised
+  | .change => st.s.h.memo.isEmpty
   | _ => true
 
 def progUnseen (tbl : ClassTable) (pol : Policy) (w : World) : Impl.State → List Op → Bool
@@ -401,6 +419,247 @@ def Op.isParamMut : Op → Bool
   | .setAttr _ _ _ => true
   | .editParam _ _ _ => true
   | _ => false
+
+/-- A state change that is not coupled to an invalidation (`change`): allowed only as a phase of a re-entrant
+mutation, where the script says when the caches are cleared. -/
+def Op.isBareChange : Op → Bool
+  | .change => true
+  | _ => false
+
+/-! ## Re-entrant evaluation: a data-side mutation is a sequence of phases
+
+In glue no data-side mutation is atomic: `Data.update_values_from_data`, `remove_component`, the `coords`
+setter, the link manager … change the state step by step and **broadcast hub messages in between**; hub
+listeners (viewers, layer artists) evaluate selections re-entrantly inside their handlers — through the same
+memo tables.  A mutation is therefore a *script*: the order of cache clears, state changes and broadcasts as
+coded (`glue/core/data.py`, `link_manager.py`, `data_collection.py`, transcribed in `Script` below), and a
+history carries `listeners`: for every message class the evaluations performed when it is delivered. -/
+
+/-- The message classes broadcast by data-side mutations (`glue/core/message.py`). -/
+inductive Msg where
+  | numerical      -- NumericalDataChangedMessage
+  | remove         -- DataRemoveComponentMessage
+  | compsChanged   -- ComponentsChangedMessage
+  | add            -- DataAddComponentMessage
+  | extDerivable   -- ExternallyDerivableComponentsChangedMessage
+  | update         -- DataUpdateMessage (label)
+  | replaced       -- ComponentReplacedMessage
+  | pixelAligned   -- PixelAlignedDataChangedMessage
+  deriving DecidableEq, Repr
+
+inductive Phase where
+  | clear            -- `clear_all_caches()`
+  | change           -- a state change that selections can see (the *current state* moves on)
+  | msg (m : Msg)    -- `hub.broadcast(m)`: every subscribed listener runs now
+  deriving DecidableEq, Repr
+
+def Phase.isMsg : Phase → Bool
+  | .msg _ => true
+  | _ => false
+
+/-- What a listener does in its handler: evaluations only (`subset.to_mask`, `data.get_mask`,
+`compute_statistic(subset_state=…)`). -/
+inductive LEval where
+  | eval (a : Var) (d : DataId) (v : View) (f : Form)
+  | evalCur (d : DataId) (v : View)
+  deriving Repr
+
+def LEval.toOp : LEval → Op
+  | .eval a d v f => .base (.eval a d v f)
+  | .evalCur d v => .base (.evalCur d v)
+
+/-- `listeners`: (message class, evaluations performed when a message of that class is delivered), in
+subscription order. -/
+abbrev Listeners := List (Msg × List LEval)
+
+def Listeners.on (L : Listeners) (m : Msg) : List LEval :=
+  (L.filter (fun e => e.1 == m)).flatMap (·.2)
+
+/-- One phase as primitive steps of any kind `α` (the driver threads its post-processing tags through the
+same function). -/
+def expandPhaseWith {α : Type} (clr chg : α) (on : Msg → List α) : Phase → List α
+  | .clear => [clr]
+  | .change => [chg]
+  | .msg m => on m
+
+def expandPhase (L : Listeners) : Phase → List Op :=
+  expandPhaseWith .clearAll .change (fun m => (L.on m).map LEval.toOp)
+
+def expandScript (L : Listeners) (s : List Phase) : List Op := s.flatMap (expandPhase L)
+
+/-- Histories with re-entrant mutations. -/
+inductive LOp where
+  | op (o : Op)
+  | mutate (script : List Phase)
+  deriving Repr
+
+def expand (L : Listeners) : List LOp → List Op
+  | [] => []
+  | .op o :: r => o :: expand L r
+  | .mutate s :: r => expandScript L s ++ expand L r
+
+/-- **Dirty-flag flow of a script.**  `dirty` = a state change has happened and the caches have not been
+cleared since.  `none` = a message is broadcast while dirty (listeners may be answered from entries of the
+previous state, or fill the tables with entries nothing clears afterwards … see the witnesses in `Props/C05`). -/
+def flow : Bool → List Phase → Option Bool
+  | d, [] => some d
+  | _, .clear :: r => flow false r
+  | _, .change :: r => flow true r
+  | d, .msg _ :: r => if d then none else flow false r
+
+/-- **"No stale key is reachable at any broadcast point"** as a property of the script alone: started with
+coherent tables, every message is broadcast — and the mutation ends — with all state changes followed by a
+clear. -/
+def Sound (s : List Phase) : Prop := flow false s = some false
+
+instance (s : List Phase) : Decidable (Sound s) := by unfold Sound; infer_instance
+
+namespace Script
+
+/-- `Data._set_externally_derivable_components(comps)` when the derivable set differs (otherwise the method
+returns at once): the set is replaced, `clear_all_caches()`, `ExternallyDerivableComponentsChangedMessage`. -/
+def extSync : List Phase := [.change, .clear, .msg .extDerivable]
+
+/-- Which internal derived components go with a removed component: a forest (`node deps siblings`). -/
+inductive Rem where
+  | nil
+  | node (deps : Rem) (siblings : Rem)
+  deriving Repr
+
+/-- `Data._remove_component(cid)` for every tree of the forest, in order:
+`_components.pop(cid)`; `_removed_derived_that_depend_on(cid)` (the dependents, recursively, each with its own
+clear and messages); `clear_all_caches()`; `DataRemoveComponentMessage`; `ComponentsChangedMessage`. -/
+def remove : Rem → List Phase
+  | .nil => []
+  | .node deps sib => [.change] ++ remove deps ++ [.clear, .msg .remove, .msg .compsChanged] ++ remove sib
+
+def Rem.leaves : Nat → Rem
+  | 0 => .nil
+  | n + 1 => .node .nil (Rem.leaves n)
+
+/-- `Data.add_component(comp, label)` with a new ComponentID: no selection object can refer to it yet, the
+current state of every existing selection is unchanged; `DataAddComponentMessage`, `ComponentsChangedMessage`. -/
+def add : List Phase := [.msg .add, .msg .compsChanged]
+
+def adds (n : Nat) : List Phase := (List.replicate n add).flatten
+
+/-- `with hub.delay_callbacks(): …` — the messages of the block are queued and delivered, in order, when the
+block is left; clears and state changes happen at once. -/
+def delayed (ps : List Phase) : List Phase := ps.filter (fun p => !p.isMsg) ++ ps.filter Phase.isMsg
+
+/-- `Data._update_world_components(ndim)` (what the `coords` setter runs): inside a delay block the `nOld`
+world components are removed (`_remove_component`), `nNew` are added (`add_component`). -/
+def world (nOld nNew : Nat) : List Phase := delayed (remove (Rem.leaves nOld) ++ adds nNew)
+
+/-- `Data.update_components(mapping)`: `comp._data = data` for all; `clear_all_caches()`;
+`NumericalDataChangedMessage`. -/
+def updateComponents : List Phase := [.change, .clear, .msg .numerical]
+
+/-- `Data.add_component(comp, cid)` with a ComponentID already in use: `_components[cid] = comp`;
+`clear_all_caches()`; `NumericalDataChangedMessage`. -/
+def replaceComponent : List Phase := [.change, .clear, .msg .numerical]
+
+/-- `Data.update_id(old, new)`: the component moves to the new id; `clear_all_caches()`;
+`ComponentReplacedMessage`. -/
+def updateId : List Phase := [.change, .clear, .msg .replaced]
+
+/-- `Data.update_values_from_data(data)`:
+1. `remove_component` for every component without a match (forest `removed`);
+2. if the number of dimensions changes (`ndim = (world components, pixel forest, new pixel components)`):
+   `coords = None` (world components removed inside a delay block), the pixel components are removed;
+3. `_shape = data._shape`; `comp_old._data = comp_new._data` for the matching ones; `clear_all_caches()`;
+4. (new ndim) the pixel components are re-generated; 5. the `added` new components are added;
+6. `label = data.label` (`DataUpdateMessage` if it differs); 7. `coords = data.coords` (`world` if it differs);
+8. `clear_all_caches()`; `NumericalDataChangedMessage`. -/
+def updateValues (removed : Rem) (ndim : Option (Nat × Rem × Nat)) (added : Nat) (label : Bool)
+    (coords : Option (Nat × Nat)) : List Phase :=
+  remove removed ++
+  (match ndim with | some (w, pix, _) => world w 0 ++ remove pix | none => []) ++
+  [.change, .clear] ++
+  (match ndim with | some (_, _, n) => adds n | none => []) ++
+  adds added ++
+  (if label then [.msg .update] else []) ++
+  (match coords with | some (a, b) => world a b | none => []) ++
+  [.clear, .msg .numerical]
+
+/-- Where the link manager and the data collection run re-entrantly: `LinkManager._component_removed`
+(on `DataRemoveComponentMessage`: links that refer to the component are dropped) and
+`DataCollection._sync_link_manager` (on `ComponentsChangedMessage`) call
+`update_externally_derivable_components`, i.e. one `extSync` block for every dataset whose derivable set
+changed — *before* later-subscribed listeners receive the triggering message.  Which datasets change is a fact
+about the links (an input, like the leaf environment: the harness reports the
+`ExternallyDerivableComponentsChangedMessage`s it saw); what a block does is the code above.
+`mergeSync skeleton observed` inserts the blocks where they were seen. -/
+def splitSync : List Msg → Nat × List Msg
+  | .extDerivable :: r => let q := splitSync r; (q.1 + 1, q.2)
+  | l => (0, l)
+
+def syncs (n : Nat) : List Phase := (List.replicate n extSync).flatten
+
+def mergeSync : List Phase → List Msg → List Phase
+  | [], obs => syncs (splitSync obs).1
+  | .msg m :: r, obs =>
+    let q := splitSync obs
+    syncs q.1 ++ .msg m :: mergeSync r (q.2.drop 1)
+  | p :: r, obs => p :: mergeSync r obs
+
+end Script
+
+/-- The data-side mutations, as the repaired code runs them. -/
+inductive Mutation where
+  | updateComponents
+  | updateValues (removed : Script.Rem) (ndim : Option (Nat × Script.Rem × Nat)) (added : Nat) (label : Bool)
+      (coords : Option (Nat × Nat))
+  | addComponent
+  | replaceComponent
+  | removeComponent (r : Script.Rem)
+  | updateId
+  | setCoords (nOld nNew : Nat)
+  /-- `DataCollection.add_link / remove_link / set_links`: the list of links is updated, then
+  `update_externally_derivable_components` — nothing but `extSync` blocks. -/
+  | linkChange
+  deriving Repr
+
+def Mutation.script : Mutation → List Phase
+  | .updateComponents => Script.updateComponents
+  | .updateValues r n a l c => Script.updateValues r n a l c
+  | .addComponent => Script.add
+  | .replaceComponent => Script.replaceComponent
+  | .removeComponent r => Script.remove r
+  | .updateId => Script.updateId
+  | .setCoords a b => Script.world a b
+  | .linkChange => []
+
+/-- The script of a mutation with the link-manager blocks where they were observed. -/
+def Mutation.phases (m : Mutation) (observed : List Msg) : List Phase := Script.mergeSync m.script observed
+
+/-- Histories of the repaired code: primitive ops and the transcribed mutations (`sync` = where
+`ExternallyDerivableComponentsChangedMessage`s were seen, see `Script.mergeSync`). -/
+inductive MOp where
+  | op (o : Op)
+  | mutation (m : Mutation) (sync : List Msg)
+  deriving Repr
+
+def MOp.toLOp : MOp → LOp
+  | .op o => .op o
+  | .mutation m sync => .mutate (m.phases sync)
+
+/-- The trace a hub listener subscribed to everything sees: for every message the number of
+`clear_all_caches()` calls since the previous one (the cache generation counts them), and the number after the
+last message. -/
+def traceOf : Nat → List Phase → List (Nat × Option Msg)
+  | k, [] => [(k, none)]
+  | k, .clear :: r => traceOf (k + 1) r
+  | k, .change :: r => traceOf k r
+  | k, .msg m :: r => (k, some m) :: traceOf 0 r
+
+/-- Per-phase tick (epoch offset) at every message and at the end: which measurement of the leaf environment
+belongs to which tick. -/
+def ticksOf : Nat → List Phase → List Nat
+  | t, [] => [t]
+  | t, .clear :: r => ticksOf t r
+  | t, .change :: r => ticksOf (t + 1) r
+  | t, .msg _ :: r => t :: ticksOf t r
 
 /-! ## Statistics and histograms read masks through `to_mask` -/
 
